@@ -839,61 +839,45 @@ Definition access_sugar_free (a : Ast.access_of Ast.expression) : bool :=
 Definition logarg_sugar_free (a : Ast.log_argument) : bool :=
   match a with Ast.LogExp e => expr_sugar_free e | Ast.LogStr _ => true end.
 
-(* a name is an identifier: it holds no `.` *)
-Definition dot_free (s : string) : bool :=
-  forallb (fun c => negb (Ascii.eqb c "."%char)) (list_ascii_of_string s).
-
-Fixpoint expr_names_ok (e : Ast.expression) {struct e} : bool :=
-  let acc_ok (a : Ast.access_of Ast.expression) :=
-    match a with Ast.ArrayAccess i => expr_names_ok i | Ast.ComponentAccess _ => true end in
-  match e with
-  | Ast.InfixOp _ l _ r => expr_names_ok l && expr_names_ok r
-  | Ast.PrefixOp _ _ r => expr_names_ok r
-  | Ast.InlineSwitchOp _ c t f => expr_names_ok c && expr_names_ok t && expr_names_ok f
-  | Ast.ParallelOp _ r => expr_names_ok r
-  | Ast.Variable_ _ n acc => dot_free n && forallb acc_ok acc
-  | Ast.Number _ _ => true
-  | Ast.Call _ _ args => forallb expr_names_ok args
-  | Ast.ArrayInLine _ vs => forallb expr_names_ok vs
-  | Ast.Tuple _ vs => forallb expr_names_ok vs
-  | Ast.AnonymousComponent _ _ _ ps ss _ => forallb expr_names_ok ps && forallb expr_names_ok ss
-  end.
-
-(* statements inside an initialization block: declarations and substitutions
-   (the parser builds nothing else; the desugarer may put a block of
-   substitutions there, which the code handles as long as it ends no block) *)
-Fixpoint init_item_ok (s : Ast.statement) {struct s} : bool :=
-  match s with
-  | Ast.Declaration _ _ _ _ _ | Ast.Substitution _ _ _ _ _ => true
-  | Ast.Block _ ss => forallb init_item_ok ss
-  | Ast.InitializationBlock _ _ ss => forallb init_item_ok ss
-  | _ => false
-  end.
-
-Fixpoint stmt_wf (s : Ast.statement) {struct s} : bool :=
+(* every expression that lifting lifts is free of sugar, and there is no
+   multi-substitution (what C18 proves of the desugarer's output) *)
+Fixpoint stmt_sugar_free (s : Ast.statement) {struct s} : bool :=
   match s with
   | Ast.IfThenElse _ c t e =>
-      expr_sugar_free c && expr_names_ok c && stmt_wf t && match e with Some e => stmt_wf e | None => true end
-  | Ast.While _ c b => expr_sugar_free c && expr_names_ok c && stmt_wf b
-  | Ast.Return _ v => expr_sugar_free v && expr_names_ok v
-  | Ast.InitializationBlock _ _ ss => forallb init_item_ok ss && forallb stmt_wf ss
-  | Ast.Declaration _ _ n dims _ =>
-      dot_free n && forallb expr_sugar_free dims && forallb expr_names_ok dims
-  | Ast.Substitution _ n acc _ rhe =>
-      dot_free n && forallb access_sugar_free acc && expr_sugar_free rhe && expr_names_ok rhe
-      && forallb (fun a => match a with Ast.ArrayAccess i => expr_names_ok i | _ => true end) acc
+      expr_sugar_free c && stmt_sugar_free t && match e with Some e => stmt_sugar_free e | None => true end
+  | Ast.While _ c b => expr_sugar_free c && stmt_sugar_free b
+  | Ast.Return _ v => expr_sugar_free v
+  | Ast.InitializationBlock _ _ ss => forallb stmt_sugar_free ss
+  | Ast.Declaration _ _ _ dims _ => forallb expr_sugar_free dims
+  | Ast.Substitution _ _ acc _ rhe => forallb access_sugar_free acc && expr_sugar_free rhe
   | Ast.MultiSubstitution _ _ _ _ => false
-  | Ast.ConstraintEquality _ l r =>
-      expr_sugar_free l && expr_sugar_free r && expr_names_ok l && expr_names_ok r
-  | Ast.LogCall _ args =>
-      forallb logarg_sugar_free args
-      && forallb (fun a => match a with Ast.LogExp e => expr_names_ok e | _ => true end) args
-  | Ast.Block _ ss => forallb stmt_wf ss
-  | Ast.Assert _ a => expr_sugar_free a && expr_names_ok a
+  | Ast.ConstraintEquality _ l r => expr_sugar_free l && expr_sugar_free r
+  | Ast.LogCall _ args => forallb logarg_sugar_free args
+  | Ast.Block _ ss => forallb stmt_sugar_free ss
+  | Ast.Assert _ a => expr_sugar_free a
   end.
 
-(* the names the declarations of a body get after renaming, as IR names, plus the
-   parameters: the keys handed to Declarations::add_declaration *)
+(* the shape of Proofs.LiftTotalFlat (C01) on the syntax tree: an entry of an
+   initialization block is a statement without control flow, or a block /
+   initialization block of such (the parser puts declarations and substitutions
+   there, the desugarer may put a block of substitutions) *)
+Fixpoint ast_flat (s : Ast.statement) {struct s} : bool :=
+  match s with
+  | Ast.While _ _ _ | Ast.IfThenElse _ _ _ _ => false
+  | Ast.InitializationBlock _ _ ss | Ast.Block _ ss => forallb ast_flat ss
+  | _ => true
+  end.
+
+Fixpoint ast_init_flat (s : Ast.statement) {struct s} : bool :=
+  match s with
+  | Ast.InitializationBlock _ _ ss => forallb ast_flat ss
+  | Ast.Block _ ss => forallb ast_init_flat ss
+  | Ast.While _ _ b => ast_init_flat b
+  | Ast.IfThenElse _ _ t e => ast_init_flat t && match e with Some e => ast_init_flat e | None => true end
+  | _ => true
+  end.
+
+(* the names of the declarations of a body, in visit order *)
 Fixpoint declared_names (s : Ast.statement) {struct s} : list string :=
   match s with
   | Ast.Declaration _ _ n _ _ => [n]
@@ -903,24 +887,25 @@ Fixpoint declared_names (s : Ast.statement) {struct s} : list string :=
   | _ => []
   end.
 
+(* pairwise different under the derived Eq of VariableName *)
 Fixpoint nodup_names (l : list Ir.vname) : bool :=
   match l with
   | [] => true
-  | x :: r => negb (existsb (fun y => Ir.vname_eqb y x) r) && nodup_names r
+  | x :: r => negb (existsb (fun y => Ir.vname_eqb x y) r) && nodup_names r
   end.
 
 Definition names_of_lifted (l : list string) : list Ir.vname :=
   flat_map (fun n => match lift_name n with Ok v => [v] | _ => [] end) l.
 
-(* The decidable well-formedness predicate of the totality theorem: the body is a
-   block without sugar whose names are identifiers, the parameters are
-   identifiers, and the declaration keys after the renaming pass are pairwise
+(* The decidable well-formedness predicate of the totality theorem
+   (Proofs.LiftFullTotal): the body is a block, free of sugar, of the shape the
+   desugarer hands on, and the keys handed to Declarations::add_declaration - the
+   parameters and the declared names AFTER the renaming pass - are pairwise
    different.  (That the renaming pass makes them different is C10's theorem about
-   Model.UniqueVars; here it is evaluated.) *)
+   its mirror Model.UniqueVars; here it is evaluated, on every case.) *)
 Definition definition_wf (params : list string) (pfile : option N) (ploc : floc) (body : Ast.statement) : bool :=
-  is_block body && stmt_wf body && forallb dot_free params
+  is_block body && stmt_sugar_free body && ast_init_flat body
   && match ensure_unique_variables params pfile ploc body with
      | Ok u => nodup_names (map vname_plain params ++ names_of_lifted (declared_names (fst u)))
-     | Err _ => true
-     | _ => false
+     | _ => true
      end.
